@@ -17,6 +17,7 @@ from concurrent.futures import ThreadPoolExecutor
 
 CHECKS = ["C%02d" % i for i in range(1, 21)]
 SLOTS = int(os.environ.get("SLOTS", "3"))
+SNAP = subprocess.run("git -C /verif rev-parse HEAD", shell=True, capture_output=True, text=True).stdout.strip()
 
 def sh(cmd, cwd=None, env=None, timeout=3600):
     e = dict(os.environ)
@@ -77,7 +78,8 @@ def evaluate(job):
         # private copy of /verif with the engine pointed at the scratch worktree
         if os.path.exists(vroot):
             shutil.rmtree(vroot)
-        sh(f"mkdir -p {vroot} && rsync -a --exclude target --exclude violations --exclude evidence --exclude .git --exclude seeded /verif/ {vroot}/")
+        # committed state of /verif only (the working tree may be mid-edit)
+        sh(f"mkdir -p {vroot} && git -C /verif archive {SNAP} | tar -x -C {vroot} && rm -rf {vroot}/seeded")
         for f2 in [f"{vroot}/engine/Cargo.toml", f"{vroot}/engine/probes/sendsync/Cargo.toml"]:
             s = open(f2).read().replace('path = "/repo/regexml"', f'path = "{wt}/regexml"')
             open(f2, "w").write(s)
